@@ -190,7 +190,7 @@ def make_case(rng, cid):
             for j, (h, b) in enumerate(cl):
                 c = S(':-', rename_vars(h, "_%d" % j), rename_vars(b, "_%d" % j)) if b != TRUE else rename_vars(h, "_%d" % j)
                 t = pl(c) if b == TRUE else "(" + pl(c[2][0]) + " :- " + pl(c[2][1]) + ")"
-                impl.append("Q\t%s_aD%d\t1\tassertz(%s)." % (cid, j, t))
+                impl.append("Q\t%s_aD%d\t1\tassertz(%s)." % (cid, j, esc(t)))
         elif cf == "M":
             # the interpreter runs on the D database (names of configuration D)
             dnew = cid + "d"
